@@ -647,6 +647,12 @@ func (s *Service) streamResponse(clientCtx, upstreamCtx context.Context, w http.
 	readDeadline := time.NewTimer(s.configuration.GetReadTimeout())
 	defer readDeadline.Stop()
 
+	// resp.Body.Read blocks, so readDeadline is only looked at between reads and a backend that
+	// stops sending mid-response would never be noticed. Close the upstream body when no read
+	// completes within the read timeout: the blocked Read returns an error and the stream ends.
+	stallGuard := time.AfterFunc(s.configuration.GetReadTimeout(), func() { _ = resp.Body.Close() })
+	defer stallGuard.Stop()
+
 	for {
 		// Check for context cancellation
 		if err := s.checkContexts(clientCtx, upstreamCtx, readDeadline, state, rlog); err != nil {
@@ -664,6 +670,7 @@ func (s *Service) streamResponse(clientCtx, upstreamCtx context.Context, w http.
 			}
 		}
 		readDeadline.Reset(s.configuration.GetReadTimeout())
+		stallGuard.Reset(s.configuration.GetReadTimeout())
 
 		// Read and process data
 		if err := s.processStreamData(resp, buffer, state, w, isStreaming, rc, rlog); err != nil {
